@@ -22,3 +22,4 @@ def check(ctx):
         found += 1
         adapters.check_adapter(ctx, facts, fns[0], "", kind="span")
     ctx.floor("R1", "fastrace_futures", found, 5, "adapter methods")
+    adapters.rule_drop_order(ctx, facts, "R4", "fastrace_futures::InSpan")
